@@ -328,6 +328,52 @@ func checkC05(p *core.Program, r *core.Report) {
 	gQueuedConst = p.Const("api", "ConnectionStateQueued")
 	queuedEdgeGlobal = q
 	checkDialGate(p, r, a, R6, orEdges(pairedEdge, q))
+
+	// R7: the stored pairing state vetoes a dial only through the paired-or-queued gate
+	const R7 = "C05.R7 no-stale-state-veto"
+	r.Rule(R7, "in the functions on the way from an mDNS report to the dial, the stored pairing state of the SKI is compared with no constant other than Queued: states such as Completed or Error outlive the connection they described (a graceful close does not reset them), so a branch on them keeps two paired hubs from ever dialling again")
+	mayDial := core.NewMay(p, true, func(in ssa.Instruction) bool { return core.IsStaticCall(in, dialName) })
+	cq := p.Const("api", "ConnectionStateQueued")
+	nchain := 0
+	for _, fn := range a.fns {
+		if fn.Parent() != nil || !mayDial.Fn(fn) {
+			continue
+		}
+		nchain++
+		fn := fn
+		bad := false
+		for _, g := range core.WithAnons(fn) {
+			core.EachInstr(g, func(in ssa.Instruction) {
+				bo, ok := in.(*ssa.BinOp)
+				if !ok || (bo.Op != token.EQL && bo.Op != token.NEQ) {
+					return
+				}
+				isState := func(v ssa.Value) bool {
+					c, ok := core.Canon(v).(*ssa.Call)
+					return ok && core.CallsMethodNamed(c, apiPath, "ConnectionStateDetail", "State")
+				}
+				var k constant.Value
+				switch {
+				case isState(bo.X):
+					k = core.ConstOf(bo.Y)
+				case isState(bo.Y):
+					k = core.ConstOf(bo.X)
+				default:
+					return
+				}
+				if k == nil || cq == nil || constant.Compare(k, token.EQL, cq.Val()) {
+					return
+				}
+				bad = true
+				r.Fail(R7, "stored pairing state consulted in "+p.FnName(fn), p.Pos(in.Pos()), "on the way to the dial the stored pairing state is compared with a constant other than Queued ("+k.ExactString()+"): that state is not reset when the connection ends, so after a graceful close or an error both hubs skip every further attempt and stay unconnected")
+			})
+		}
+		if !bad {
+			r.OK(R7, "stored pairing state consulted in "+p.FnName(fn), p.Pos(fn.Pos()), "only == Queued (with the paired flag)")
+		}
+	}
+	r.Counts["dial_chain_functions"] = nchain
+	r.Floor(R7, 3)
 }
 
 // checkKeepRule discovers the double-connection decision function and
@@ -671,7 +717,6 @@ func decisionFuncs(a *hubAnchors) []*ssa.Function {
 	}
 	return cands
 }
-
 
 // guardedUp: every path to the instruction takes a guard edge - inside its own function, or (for a helper)
 // before every plain call of that function, up to depth levels.
